@@ -329,6 +329,17 @@ func sameValue(a, b *Term) bool {
 	if a.V == b.V {
 		return true
 	}
+	// the same element read twice: xs[i] and xs[i] with the same slice value and the same index value
+	if (a.Op == "index" || a.Op == "load") && a.Op == b.Op {
+		ia, ib := a, b
+		if a.Op == "load" && len(a.Args) == 1 && len(b.Args) == 1 {
+			ia, ib = a.Args[0], b.Args[0]
+		}
+		if (ia.Op == "index" || ia.Op == "indexaddr") && ia.Op == ib.Op && len(ia.Args) == 2 && len(ib.Args) == 2 &&
+			ia.Args[0].V != nil && ia.Args[0].V == ib.Args[0].V && ia.Args[1].V != nil && ia.Args[1].V == ib.Args[1].V {
+			return true
+		}
+	}
 	// two calls of the same stable getter on the same receiver (`node.Host()` evaluated twice) are the same value
 	ca, ok1 := a.V.(*ssa.Call)
 	cb, ok2 := b.V.(*ssa.Call)
@@ -531,4 +542,40 @@ func (c *Check) countPaths(fa *FuncAnalysis, target ssa.Instruction, pats []LitP
 	c.paths.Add(c.paths, r.total)
 	c.pathsGated.Add(c.pathsGated, new(big.Int).Sub(r.total, r.clean))
 	c.pathTargets++
+}
+
+// cmpTerm reads a boolean VALUE term as a comparison in normal form: ops "<", "<=", "==", "!=" (a op b); `>`/`>=` are
+// swapped, `!(…)` is pushed inside. `count >= req`, `req <= count` and `!(count < req)` all give (req, count, "<=").
+func cmpTerm(t *Term) (a, b *Term, op string, ok bool) {
+	neg := false
+	for t != nil && t.Op == "not" && len(t.Args) == 1 {
+		neg = !neg
+		t = t.Args[0]
+	}
+	if t == nil || t.Op != "bin" || len(t.Args) != 2 {
+		return nil, nil, "", false
+	}
+	a, b, op = t.Args[0], t.Args[1], t.Name
+	switch op {
+	case ">":
+		a, b, op = b, a, "<"
+	case ">=":
+		a, b, op = b, a, "<="
+	case "<", "<=", "==", "!=":
+	default:
+		return nil, nil, "", false
+	}
+	if neg {
+		switch op {
+		case "<": // !(a < b) = b <= a
+			a, b, op = b, a, "<="
+		case "<=":
+			a, b, op = b, a, "<"
+		case "==":
+			op = "!="
+		case "!=":
+			op = "=="
+		}
+	}
+	return a, b, op, true
 }
